@@ -25,6 +25,7 @@ def stepLine (d : DState) (line : String) : DState × String :=
   | "LB" :: rest => (d, Labels.handle rest)
   | "IM" :: rest => (d, Import.handle rest)
   | "EX" :: rest => (d, Export.handle rest)
+  | "EXD" :: rest => (d, ExportDisplay.handle rest)
   | _ => (d, "bad-op")
 
 partial def loop (hin : IO.FS.Stream) (hout : IO.FS.Stream) (d : DState) : IO Unit := do
